@@ -200,7 +200,8 @@ func (x *wrapWrite) Close() error {
 type drvCtlT struct {
 	mu    sync.Mutex
 	ops   []string
-	fail  map[string]bool // op name ("begin","query","exec","commit","rollback") -> fail next occurrence
+	fail  map[string]bool // op name ("begin","query","exec","commit","rollback") -> fail next occurrence; "name#k": the k-th from now
+	seen  map[string]int  // occurrences of each op since the plan was set
 	count int
 	kill  int // SIGKILL self before op number kill (1-based, counting entry and exit events), 0 = never
 }
@@ -215,11 +216,26 @@ func (d *drvCtlT) op(name string) bool {
 	if d.kill != 0 && d.count == d.kill {
 		killSelf()
 	}
+	if d.seen == nil {
+		d.seen = map[string]int{}
+	}
+	d.seen[name]++
 	if d.fail[name] {
 		delete(d.fail, name)
 		return true
 	}
+	if k := fmt.Sprintf("%s#%d", name, d.seen[name]); d.fail[k] {
+		delete(d.fail, k)
+		return true
+	}
 	return false
+}
+
+// pending reports whether any planned fault has not struck yet.
+func (d *drvCtlT) pending() bool {
+	d.mu.Lock()
+	defer d.mu.Unlock()
+	return len(d.fail) > 0
 }
 
 func (d *drvCtlT) done(name string) {
@@ -246,6 +262,7 @@ func (d *drvCtlT) take() string {
 func (d *drvCtlT) setFaults(ops []string) {
 	d.mu.Lock()
 	d.fail = map[string]bool{}
+	d.seen = map[string]int{}
 	for _, o := range ops {
 		d.fail[o] = true
 	}
